@@ -214,19 +214,18 @@ def cubic_spline(
         root_2 = root_2 * root_scale + root_shift
         root_3 = root_3 * root_scale + root_shift
 
-        root1_mask = ((input_left_cumwidths[three_roots_mask] - eps) < root_1).float()
-        root1_mask *= (root_1 < (input_right_cumwidths[three_roots_mask] + eps)).float()
-
-        root2_mask = ((input_left_cumwidths[three_roots_mask] - eps) < root_2).float()
-        root2_mask *= (root_2 < (input_right_cumwidths[three_roots_mask] + eps)).float()
-
-        root3_mask = ((input_left_cumwidths[three_roots_mask] - eps) < root_3).float()
-        root3_mask *= (root_3 < (input_right_cumwidths[three_roots_mask] + eps)).float()
-
+        # Exactly one root lies in the bin that contains the input; the other two belong to the
+        # cubic's continuation outside the bin. Rounding can move the right root slightly out of
+        # the bin (by more than any fixed eps when the coefficients are large), so pick the root
+        # closest to the bin instead of the first one inside an eps-window.
         roots = torch.stack([root_1, root_2, root_3], dim=-1)
-        masks = torch.stack([root1_mask, root2_mask, root3_mask], dim=-1)
-        mask_index = torch.argsort(masks, dim=-1, descending=True)[..., 0][..., None]
-        outputs[three_roots_mask] = torch.gather(roots, dim=-1, index=mask_index).view(
+        bin_left = input_left_cumwidths[three_roots_mask][..., None]
+        bin_right = input_right_cumwidths[three_roots_mask][..., None]
+        distance = torch.clamp(bin_left - roots, min=0) + torch.clamp(
+            roots - bin_right, min=0
+        )
+        root_index = torch.argmin(distance, dim=-1, keepdim=True)
+        outputs[three_roots_mask] = torch.gather(roots, dim=-1, index=root_index).view(
             -1
         )
 
